@@ -32,7 +32,7 @@ def try_replay(prop, harness, record):
 
 # Replayers that do not look at the solver's concrete values (they replay the scenario class natively): extracting the values
 # costs a second solver run per failing harness, so it is skipped for them.
-NO_VALUES = ("c26_first_mut_lookups", "c02_", "c03_", "c09_", "c12_", "c13_", "c20_", "c21_two_event_loops", "c21_step_", "c25_release_on_drop", "c26_first_lookups",
+NO_VALUES = ("c26_first_mut_lookups", "c25_zero_sized", "c14_cond_timedwait_far", "c02_", "c03_", "c09_", "c12_", "c13_", "c20_", "c21_two_event_loops", "c21_step_", "c25_release_on_drop", "c26_first_lookups",
              "c26_sequential", "c19_history")
 
 
@@ -405,6 +405,38 @@ def _replay_c20(prop, harness, rec):
     st = "reproduced" if med > 7000 else "not_reproduced"
     return {"status": st, "out": o,
             "detail": f"median wake latency {med}us for data arriving after 2000us (slice timeout is 10000us)"}
+
+
+@replayer("c25_zero_sized")
+def _replay_c25_zst(prop, harness, rec):
+    r = run_case(["local_zst"], 20)
+    if "error" in r:
+        return {"status": "unavailable", "detail": r["error"]}
+    o = r["out"]
+    if o is None:
+        return {"status": "reproduced", "detail": f"crash: {r['stderr_tail'][-200:]}"}
+    ok = o["overwritten_handed_back"] and o["removed_handed_back"] and o["dropped_before_storage_drop"] == 2 and o["dropped_total"] == 3
+    return {"status": "not_reproduced" if ok else "reproduced", "out": o,
+            "detail": f"3 zero-sized values created (one overwritten, one removed, one left stored): {o['dropped_before_storage_drop']} dropped before and "
+                      f"{o['dropped_total']} after the local storage was dropped"}
+
+
+@replayer("c14_cond_timedwait_far")
+def _replay_c14_cond_far(prop, harness, rec):
+    outs = []
+    for sec in (18_446_744_074, 18_446_744_075, 36_893_488_148, 2 ** 62, 2 ** 63 - 1, 5_000_000_000):
+        r = run_case(["cond_far", sec, 0], 20)
+        if "error" in r:
+            return {"status": "unavailable", "detail": r["error"]}
+        o = r["out"]
+        if o is None:
+            return {"status": "reproduced", "detail": f"tv_sec={sec}: the hooked call crashed: {r['stderr_tail'][-200:]}"}
+        outs.append(o)
+        if o["ret"] != 0 or o["native_calls"] != 1:
+            return {"status": "reproduced", "out": o,
+                    "detail": f"deadline tv_sec={sec} (far in the future): hooked pthread_cond_timedwait returned {o['ret']} after {o['native_calls']} native wait(s); "
+                              "the native call would have been signalled at once"}
+    return {"status": "not_reproduced", "out": outs, "detail": "every far-future deadline was waited for through the native call"}
 
 
 @replayer("c25_release_on_drop")
